@@ -243,6 +243,9 @@ def defs_with_conditions(bf, local):
                 v = (rv.d['op'], term_of_operand(bf, rv.ops[0]), term_of_operand(bf, rv.ops[1]))
             elif rv.k == 'cast':
                 v = ('cast', rv.d['ty'], term_of_operand(bf, rv.ops[0]), rv.d.get('from'))
+            elif rv.k == 'ref' and rv.place is not None:
+                from .flow import term_of_place
+                v = ('ref', term_of_place(bf, rv.place))
             else:
                 v = ('other', rv.k)
         elif kind == 'call':
